@@ -15,6 +15,10 @@ for sid in sys.argv[1:]:
             p = os.path.join(src, f)
             if os.path.isfile(p) and os.path.getsize(p) < 2_000_000:
                 shutil.copy(p, os.path.join(dst, f))
+            elif os.path.isdir(p) and sum(len(fs) for _, _, fs in os.walk(p)) < 50:
+                # small helper directories of a demonstration (e.g. a stand-in python module)
+                shutil.copytree(p, os.path.join(dst, f), dirs_exist_ok=True,
+                                ignore=shutil.ignore_patterns("__pycache__", "*.o", "*.so", "*.a"))
     meta = json.load(open(os.path.join(dst, "meta.json")))
     wt = "/tmp/confirm_wt_%s" % sid
     sh(["git", "-C", "/repo", "worktree", "remove", "--force", wt])
